@@ -23,6 +23,7 @@ import YtkModel.Generated.Constants
 import YtkProofs.Addr
 import YtkProofs.PointerPaths
 import YtkProofs.RebuildB
+import YtkProofs.GapDiffFlatten
 import YtkProofs.ValidB
 
 namespace Ytk.C02
@@ -139,5 +140,47 @@ theorem nonvacuous_rebuild_exact :
 theorem source_constants :
     Generated.const? "dom.listPathRe" = some "\\[\\d+]$" ∧
     Generated.const? "utils.listPropRe" = some ".*(\\[\\d+])+" := by decide
+
+end Ytk.C02
+
+/-! ## gap7a: need of `ItemsHaveScalars`; the flattened view determines the document (C02 × C07) -/
+namespace Ytk.C02
+
+/-- `ItemsHaveScalars` cannot be dropped from `rebuild_perm`: a list item without a scalar (`{}` in
+    front of a leaf) has no flattened entry and comes back as a null pad, which Flatten then reports. -/
+theorem rebuild_needs_items_counterexample :
+    (Node.cont [("a", .list [.cont [], .leaf ⟨"int", "1"⟩])]).Valid ∧
+    (Node.cont [("a", .list [.cont [], .leaf ⟨"int", "1"⟩])]).SafeKeys ∧
+    flatten [("a", .list [.cont [], .leaf ⟨"int", "1"⟩])] = [("a[1]", ⟨"int", "1"⟩)] ∧
+    flatten (rebuild (flatten [("a", .list [.cont [], .leaf ⟨"int", "1"⟩])])) =
+      [("a[0]", Scalar.null), ("a[1]", ⟨"int", "1"⟩)] :=
+  ⟨Node.validB_sound _ (by decide +kernel), Node.safeB_sound _ (by decide +kernel), by decide +kernel,
+   by decide +kernel⟩
+
+/-- The flattened view determines the document when no list / container below the root is empty:
+    two such documents (valid, path-safe) with the same flattened view are the same document. -/
+theorem flatten_injective (L R : AMap Node) (hL : (Node.cont L).Valid) (hR : (Node.cont R).Valid)
+    (hsL : (Node.cont L).SafeKeys) (hsR : (Node.cont R).SafeKeys)
+    (hnL : ∀ p ∈ L, p.2.NoEmpty) (hnR : ∀ p ∈ R, p.2.NoEmpty) (h : flatten L = flatten R) : L = R :=
+  eq_of_flatten_eq L R hL hR hsL hsR hnL hnR h
+
+/-- C07 × C02, end to end: on such documents `Diff(L, R) = [] ↔ Flatten(L) = Flatten(R)` (C07 claims
+    and proves "→" for all valid documents; "←" fails in general: `C07.diff_nonempty_same_flatten_counterexample`).
+    Exported here because YtkProps/C07.lean cannot import YtkProofs/FlattenPaths.lean (two declarations
+    named `Ytk.Node.SafeKeys`). -/
+theorem diff_nil_iff_flatten (L R : AMap Node) (hL : (Node.cont L).Valid) (hR : (Node.cont R).Valid)
+    (hsL : (Node.cont L).SafeKeys) (hsR : (Node.cont R).SafeKeys)
+    (hnL : ∀ p ∈ L, p.2.NoEmpty) (hnR : ∀ p ∈ R, p.2.NoEmpty) :
+    diff L R = [] ↔ flatten L = flatten R :=
+  diff_nil_iff_flatten_aux L R hL hR hsL hsR hnL hnR
+
+/-- non-vacuity of the hypotheses (exFull above) and of both directions on a concrete pair -/
+theorem nonvacuous_diff_nil_iff_flatten :
+    (diff exFull exFull = [] ↔ flatten exFull = flatten exFull) ∧ diff exFull exFull = [] ∧
+    diff exFull [("b", .cont [("c", .leaf ⟨"bool", "true"⟩)])] ≠ [] ∧
+    flatten exFull ≠ flatten [("b", .cont [("c", .leaf ⟨"bool", "true"⟩)])] := by
+  have h := nonvacuous_rebuild_exact
+  exact ⟨diff_nil_iff_flatten exFull exFull h.1 h.1 h.2.1 h.2.1 h.2.2.1 h.2.2.1, by decide +kernel,
+    by decide +kernel, by decide +kernel⟩
 
 end Ytk.C02
